@@ -14,7 +14,7 @@ use std::sync::{Mutex, OnceLock};
 
 pub struct C15;
 
-pub const PROGRAMS: [(&str, &str); 10] = [
+pub const PROGRAMS: [(&str, &str); 12] = [
     ("counter", "fn cnt(p) {\n  self + p\n}\nfn dsp(x) {\n  cnt(x) + cnt(1.0)\n}\n"),
     ("closures", "fn mk(n) {\n  |y| y + n\n}\nfn dsp(x) {\n  let a = mk(1.0)\n  let b = |q| q * 2.0\n  let c = | | 3.0\n  a(x) + b(x) + c()\n}\n"),
     ("enum", "type Dir = Up | Down | Left(float)\nfn f(d: Dir) {\n  match d {\n    Up => 1.0,\n    Down => 2.0,\n    Left(v) => v\n  }\n}\nfn dsp(x) {\n  f(Up) + f(Down) + f(Left(x))\n}\n"),
@@ -24,6 +24,8 @@ pub const PROGRAMS: [(&str, &str); 10] = [
     ("many_functions", "fn f1(x) {\n  x + 1.0\n}\nfn f2(x) {\n  sin(x) + cos(x)\n}\nfn f3(x) {\n  sqrt(abs(x)) + log(x + 2.0)\n}\nfn f4(x) {\n  mem(x) + delay(4.0, x, 2.0)\n}\nfn f5(x) {\n  min(x, 1.0) + max(x, 0.0) + atan2(x, 1.0)\n}\nfn dsp(x) {\n  f1(x) + f2(x) + f3(x) + f4(x) + f5(x)\n}\n"),
     ("rec_list", "type rec List = Nil | Cons(float, List)\nfn sum(l: List) -> float {\n  match l {\n    Nil => 0.0,\n    Cons(h, t) => h + sum(t)\n  }\n}\nfn dsp(x: float) -> float {\n  sum(Cons(x, Cons(2.0, Nil)))\n}\n"),
     ("scheduler", "let c0 = 0.0\nfn task0() {\n  c0 = c0 + 1.0\n  task0@(now + 2.0)\n}\ntask0@1.0\nfn dsp(x) {\n  c0 + x\n}\n"),
+    ("record_fields_in_reverse_order", "fn dsp(x) {\n  let r = {zeta = 1.0, omega = x, alpha = 2.0}\n  r.zeta + r.alpha * 10.0 + r.omega * 100.0\n}\n"),
+    ("record_update_two_stateful_fields", "fn cnt(p) {\n  self + p\n}\nfn dsp(x) {\n  let r = {alpha = 0.0, omega = 0.0, zeta = 0.0}\n  let r2 = {r <- zeta = delay(4.0, cnt(1.0), 2.0), alpha = cnt(10.0), omega = mem(x)}\n  r2.alpha + r2.zeta * 100.0 + r2.omega * 10000.0\n}\n"),
     ("tuples_if", "fn sw(t:(float,float)) {\n  (t.1, t.0)\n}\nfn dsp(x) {\n  let t = if (x) { (1.0, x) } else { (x, 2.0) }\n  let (p, q) = sw(t)\n  (p, q, now)\n}\n"),
 ];
 
